@@ -447,6 +447,7 @@ fn range_context_family(o: &mut Out, r: &mut Rng, th: bool) {
 pub fn gen_c12(o: &mut Out, tier: &str, seed: u64) {
     let mut r = Rng::new(seed, "c12");
     let th = tier == "thorough";
+    crate::gen::ix_data_lengths(o, &mut r);
     range_context_family(o, &mut r, th);
     decode_family(o, &mut r, th);
     extract_family(o, &mut r, th);
@@ -859,6 +860,19 @@ pub fn gen_c14(o: &mut Out, tier: &str, seed: u64) {
             o.op("signer", &format!("kdf {} signer {} {}", ty, hex(&r.bytes(64)), hex(&ps)));
             o.op_exp("signer.zero-signature", "err", &format!("kdf {} signer {} {}", ty, hex(&[0u8; 64]), hex(&ps)));
         }
+        // only the all-zero signature is refused: one zero half (R or s), a single non-zero byte, all ones
+        {
+            let ps = r.bytes(8);
+            let mut sigs: Vec<Vec<u8>> = vec![];
+            let mut a = vec![0u8; 32]; a.extend(r.bytes(32)); sigs.push(a);
+            let mut a = r.bytes(32); a.extend(vec![0u8; 32]); sigs.push(a);
+            for i in [0usize, 31, 32, 63] { let mut a = vec![0u8; 64]; a[i] = 1; sigs.push(a); }
+            sigs.push(vec![0xffu8; 64]);
+            for sg in sigs {
+                o.op("signer.partly-zero-signature", &format!("kdf {} signer {} {}", ty, hex(&sg), hex(&ps)));
+                o.op("sig.partly-zero", &format!("kdf {} sig {}", ty, hex(&sg)));
+            }
+        }
         // real ed25519 signers
         for _ in 0..(if th { 100 } else { 6 }) {
             let l = r.below(40) as usize;
@@ -952,6 +966,26 @@ pub fn gen_c18(o: &mut Out, tier: &str, seed: u64) {
     }
     for k in [r.bytes(8).iter().cycle().take(16).cloned().collect::<Vec<u8>>(), vec![0x5au8; 16], r.bytes(4).iter().cycle().take(16).cloned().collect()] {
         for how in ["decoded", "from", "cloned", "decoded-unwind"] { o.op_exp(&format!("drop.aekey.structured.{}", how), "wiped", &format!("drop aekey {} {}", how, hex(&k))); }
+    }
+    // refused key files: the refusal (its Display and Debug text) must not repeat the secret part of the file
+    {
+        let arr = |v: &[u8]| format!("[{}]", v.iter().map(|b| b.to_string()).collect::<Vec<_>>().join(","));
+        let k = kp(&mut r);
+        let other = kp(&mut r);
+        // public half of another key; secret half not canonical; one byte short / long
+        let mut spliced = other.p.compress().to_bytes().to_vec(); spliced.extend(k.s.to_bytes());
+        let mut noncanon = k.p.compress().to_bytes().to_vec(); noncanon.extend([0xf3u8; 32]);
+        let mut short = k.p.compress().to_bytes().to_vec(); short.extend(&k.s.to_bytes()[..31]);
+        let mut long = k.p.compress().to_bytes().to_vec(); long.extend(k.s.to_bytes()); long.push(5);
+        for v in [spliced, noncanon, short, long] { o.op_exp("refused-file.keypair", "err", &format!("json keypair {}", hex(arr(&v).as_bytes()))); }
+        let sec = k.s.to_bytes();
+        o.op_exp("refused-file.secret", "err", &format!("json secret {}", hex(arr(&[0xf5u8; 32]).as_bytes())));
+        o.op_exp("refused-file.secret", "err", &format!("json secret {}", hex(arr(&sec[..31]).as_bytes())));
+        let mut s33 = sec.to_vec(); s33.push(1);
+        o.op_exp("refused-file.secret", "err", &format!("json secret {}", hex(arr(&s33).as_bytes())));
+        let ak = r.bytes(17);
+        o.op_exp("refused-file.aekey", "err", &format!("json aekey {}", hex(arr(&ak).as_bytes())));
+        o.op_exp("refused-file.aekey", "err", &format!("json aekey {}", hex(arr(&ak[..15]).as_bytes())));
     }
     let mut k = vec![0u8; 16]; k[3] = 9;
     for how in ["decoded", "from", "cloned"] { o.op_exp(&format!("drop.aekey.{}", how), "wiped", &format!("drop aekey {} {}", how, hex(&k))); }
